@@ -137,8 +137,10 @@ def _result(kind: int, failed_at: int):
 # ----------------------------------------------------------------------------------------------- inductive step
 
 
-@obligation(quick=150, thorough=500,
-            partitions_quick=[f"kind == {k}" for k in range(9) if k != 2] + [f"kind == 2 and pol == {p} and att {a}" for p in (0, 1, 2, 4) for a in ("== 0", ">= 1")] + ["kind == 2 and pol == 3"],
+
+
+@obligation(quick=200, thorough=500,
+            partitions_quick=[f"kind == {k}" for k in range(9) if k != 2] + [f"kind == 2 and pol == {p} and att {a}" for p in (0, 1, 2, 4) for a in ("== 0", ">= 1")] + [f"kind == 2 and pol == 3 and nw == {nn} and att == {aa} and d == {dd}" for nn in (1, 2, 3) for aa in (1, 2) for dd in (0, 1, 2)],
             partitions_thorough=[f"kind == {k} and nw == {n}" for k in range(9) if k != 2 for n in (1, 2, 3)]
             + [f"kind == 2 and pol == {p} and att == {a} and nw == {n}" for p in (0, 1, 2, 4) for a in (0, 1, 2) for n in (1, 2, 3)]
             + [f"kind == 2 and pol == 3 and nw == {n} and att >= 1 and d == {d}" for n in (1, 2, 3) for d in range(4)],  # (pol 3, att 0) is the class of KF-C11-1; the cover check accepts it as excluded
@@ -158,6 +160,10 @@ def ob_replay_step_result(nw: int, b0: bool, b1: bool, b2: bool, q: int, wid: in
     pre: att == 0 or t1 == t2
     post: _
     """
+    if pol == 3:
+        # stop_after_delay compares float elapsed times: with symbolic instants every path costs seconds of non-linear float solving and
+        # the partition never finishes; the instants are small ints, so let the solver pick each value (one cheap path per combination)
+        d, t1, t2, now1, now2, fa = conc(d, 0, 4), conc(t1, 0, 6), conc(t2, 0, 6), conc(now1, 0, 6), conc(now2, 0, 6), conc(fa, 0, 6)
     policy = _policy(pol, n, d)
     wk = 1 if kind == 6 else 0
     s1 = world_ab(nw, b0, b1, b2, q, att=att, policy=policy, buf_live=live, buf_snap=snap, wait_kind=wk, t0=t1)
